@@ -251,7 +251,12 @@ class WCyc(explore.World):
     self.S, self.peer_edge = S, peer_edge
 
   def alphabet(self, doc):
-    return [("upd x", [["UpdateRecord", "G", 1, {"x": X2[1]}]])]
+    # the edit, and every single-column repair of the cycle (follow-up bundles for C06: which
+    # cell of a cycle was evaluated last depends on the order, and must not matter afterwards)
+    out = [("upd x", [["UpdateRecord", "G", 1, {"x": X2[1]}]])]
+    for i in range(len(self.S)):
+      out.append(("repair c%d" % i, [["ModifyColumn", "G", "c%d" % i, {"formula": "$x"}]]))
+    return out
 
 
 def cyclic_worlds(k, limit=None):
